@@ -140,7 +140,8 @@ fn build_universe(epochs: &[u32], releases: &[Vec<u32>], pres: &[Option<(&'stati
                 // spelling 4/5 add trailing zeros, so normal forms may differ only in release padding
                 r.normal()
             } { machinery_error(&format!("generator bug: spelling {t:?} is not the same version as {:?}", r0.normal())); }
-            let z = PEP440::from_str(&t).unwrap_or_else(|e| machinery_error(&format!("universe member {t:?} rejected by the real parser: {e}")));
+            // a spelling of a valid version that the real parser refuses is a verdict about zerv, not a machinery problem
+            let z = match PEP440::from_str(&t) { Ok(z) => z, Err(e) => { REJECTED.lock().unwrap().push((t.clone(), e.to_string())); continue; } };
             out.push(V { text: t, vid, z, r });
         }
         vid += 1;
@@ -233,6 +234,8 @@ fn check_max_tag(ctx: &Ctx, u: &[&V]) -> Stats {
     }).reduce(Stats::default, Stats::merge)
 }
 
+static REJECTED: std::sync::Mutex<Vec<(String, String)>> = std::sync::Mutex::new(Vec::new());
+
 fn main() {
     let ctx = Ctx::from_args("C11", "model_checking");
     if let Some(case) = ctx.replay_case() {
@@ -272,6 +275,7 @@ fn main() {
     if check_pairs(&ctx, head).digest != check_pairs(&ctx, head).digest { machinery_error("determinism replay diverged"); }
 
     let all = s_pairs.clone().merge(s_tri).merge(s_mt);
+    for (t, e) in REJECTED.lock().unwrap().iter() { ctx.violation("universe_member_rejected", format!("{t:?}"), json!({"kind":"member","text":t}), format!("the real parser rejects this spelling of a valid version: {e}")); }
     let mut cov = Coverage::default();
     cov.states = (u.len() + ub.len() + ul.len()) as u64;
     cov.transitions = all.get("pairs");
